@@ -178,7 +178,12 @@ def run(spec):
                     ('walk and lexical normal form reach different nodes', d, a, rel, nf,
                      w.path_for(), lx.path_for() if lx is not None else 'RAISED'))
         else:
-            V.count('walk_vs_lexical')
+            # the walk fails; when it fails because the path climbs above the root, its normal form still starts
+            # with '..' and does not resolve from the root either
+            escapes = bool(norm_path(a + rel)) and norm_path(a + rel)[0] == '..'
+            V.check('walk_vs_lexical', not (escapes and lx is not None),
+                    ('a path that climbs above the root cannot be walked, but its lexical normal form resolves to a node',
+                     d, a, rel, nf))
             stats['walks_failed'] = 1
         # model agreement of the lexical resolution
         exists = nf in nodes
